@@ -40,8 +40,42 @@ def run(rep, tier, seed, replay):
     findings, _ = common.load_findings("C04")
     finding_ids = {f["id"] for f in findings}
     frag_cache = {}
+    # (iv) every participating capture is a match of ITS OWN sub-expression: the sub-expression is sliced out of the expression by
+    # the token's span and built alone, under either state of the case flag (the state in force is not recomputed here, so a
+    # capture is reported only when neither state accepts it); sub-expressions containing a tree wildcard are left to clause (vi)
+    own = {}
+    reqs = []
+    for idx, ((k, p), line) in enumerate(zip(pairs, res)):
+        if not line.startswith("match"):
+            continue
+        toks = top_tokens(P.impl[k]["tokens"])
+        caps = [t for t in toks if kind_span(t)[0] in CAPTURING]
+        items = line.split(" ")[5:]
+        eb = exprs[k].encode("utf-8")
+        for i, (it, tok) in enumerate(zip(items[1:], caps), 1):
+            kd, st, ln = kind_span(tok)
+            if it == "n" or kd == "tree":
+                continue
+            try:
+                sub = eb[st:st + ln].decode("utf-8")
+            except UnicodeDecodeError:
+                continue
+            if "**" in sub or not sub:
+                continue
+            text = unhex(it[2:].split("@")[0])
+            for fl in ("(?-i)", "(?i)"):
+                reqs.append((idx, i, sub, text, fl))
+    for (idx, i, sub, text, fl), ans in zip(reqs, h.ask(["MO %s %s" % (hexs(fl + sub), hexs(text)) for (_, _, sub, text, fl) in reqs])):
+        own.setdefault((idx, i), []).append((sub, text, "err" if ans.startswith("err") or ans.startswith("panic") else ("1" if ans.startswith("match") else "0")))
+    own_bad = {}
+    for (idx, i), rs in own.items():
+        if len(rs) == 2 and all(x[2] == "0" for x in rs):
+            own_bad.setdefault(idx, []).append("capture %d is %r, which its own sub-expression %r does not match under either case flag" % (i, rs[0][1], rs[0][0]))
+        rep.stats["own-sub-expression:" + ("skipped(does not build alone)" if any(x[2] == "err" for x in rs) else "checked")] += 1
+    pair_index = -1
     for (k, p), line, ml in zip(pairs, res, mres):
         e = exprs[k]
+        pair_index += 1
         rep.traces += 1
         inp = {"expr": e, "path": p}
         toks = top_tokens(P.impl[k]["tokens"])
@@ -60,7 +94,7 @@ def run(rep, tier, seed, replay):
         rep.stats["match"] += 1
         items = line.split(" ")[5:]
         n = int(f["n"])
-        problems = []
+        problems = list(own_bad.get(pair_index, []))
         if f.get("owned") != "same":
             problems.append("owned matched text differs from the borrowed text")
         # (iii) one capture per capturing token, in expression order; out-of-range index is none
@@ -82,6 +116,10 @@ def run(rep, tier, seed, replay):
         any_part = False
         for i, (v, tok) in enumerate(zip(vals[1:], caps), 1):
             if v is None:
+                # a top-level ?, *, $, class, alternation or repetition is an unconditional group of the concatenation: it takes part
+                # in every match (only a tree wildcard may match without capturing: `a/**/b` on `a/b`)
+                if kind_span(tok)[0] != "tree":
+                    problems.append("capture %d (%s) does not participate in a match although its sub-expression is an unconditional part of the expression" % (i, kind_span(tok)[0]))
                 continue
             any_part = True
             text, off = v
